@@ -54,12 +54,17 @@ fn answer(p: V, q: V, with_q: bool) -> Answer {
 /// Run one (program, signals, script) case: never panic; items are rows / error items /
 /// the end exactly where the reference predicts them (kinds only, values are C08's).
 fn run_case(st: &mut Stats, order: u64, what: &str, prog: &Program, sigs: &[Sig], script: &[Step], repeat_last: bool) {
+    run_case_n(st, order, what, prog, sigs, script, repeat_last, 8)
+}
+
+#[allow(clippy::too_many_arguments)]
+fn run_case_n(st: &mut Stats, order: u64, what: &str, prog: &Program, sigs: &[Sig], script: &[Step], repeat_last: bool, max_items: usize) {
     let text = text(prog);
     st.evals += 1;
     let mut env = ScriptEnv::new(script);
     env.repeat_last = repeat_last;
-    let r = crate::refsem::run(prog, sigs, &mut env, Fuel { steps: 300, rows: 12 });
-    let mut opts = RunOpts::new(8);
+    let r = crate::refsem::run(prog, sigs, &mut env, Fuel { steps: 300 + 40 * max_items, rows: max_items + 4 });
+    let mut opts = RunOpts::new(max_items);
     opts.repeat_last = repeat_last;
     opts.collect_vars = true;
     opts.budget = 50_000;
@@ -84,7 +89,7 @@ fn run_case(st: &mut Stats, order: u64, what: &str, prog: &Program, sigs: &[Sig]
         return fail(st, "vars() panics".into(), format!("vars() panicked: {s}"));
     }
     if let Ok(tc) = &tc {
-        match run_static(tc, 8, 1, 50_000) {
+        match run_static(tc, max_items, 1, 50_000) {
             StaticObs::Panic(s) => return fail(st, format!("static iteration panics {}", panic_site(&s)), format!("try_iter_static / its next() panicked: {s}")),
             StaticObs::Rows(..) => st.witness("static_iteration_exercised"),
             _ => {}
@@ -100,7 +105,7 @@ fn run_case(st: &mut Stats, order: u64, what: &str, prog: &Program, sigs: &[Sig]
     if !crate::compare::init_matches(&r.init, &obs.init) {
         return fail(st, "construction".into(), format!("construction: expected {:?}, got {}", r.init, obs.init.brief()));
     }
-    for (k, ri) in r.items.iter().enumerate().take(8) {
+    for (k, ri) in r.items.iter().enumerate().take(max_items) {
         let Some(oi) = obs.items.get(k) else { break };
         let (want, kind_ok) = match ri {
             RefItem::Row(_) => ("a row", oi.is_row()),
@@ -124,7 +129,7 @@ fn run_case(st: &mut Stats, order: u64, what: &str, prog: &Program, sigs: &[Sig]
             return fail(st, class.into(), format!("item {k}: expected {want} ({}), got {}", crate::compare::ref_brief(ri), oi.brief()));
         }
     }
-    if r.end == RefEnd::Done && r.items.len() < 8 {
+    if r.end == RefEnd::Done && r.items.len() < max_items {
         if let Some(oi) = obs.items.get(r.items.len()) {
             if *oi != ObsItem::End {
                 return fail(st, "unexpected item kind".into(), format!("item {}: expected the end of the iteration, got {}", r.items.len(), oi.brief()));
@@ -274,6 +279,31 @@ pub fn run(tier: Tier, seed: u64) -> i32 {
         total.merge(st);
     }
 
+    // T8: histories of rows: every ordered sequence of 2 (thorough: 3) rows over {0,1,X,C}^3 x {X,2}
+    // with two clock columns, run to the end (what one row leaves behind must not trip the next)
+    {
+        let s8 = vec![Sig::inp("C1", 1, 0), Sig::inp("C2", 1, 0), Sig::out("Q", 4), Sig::inp("A", 1, 0)];
+        let h8: Vec<String> = ["C1", "C2", "A", "Q"].iter().map(|s| s.to_string()).collect();
+        let one = [l(0), l(1), Entry::X, Entry::C];
+        let per_row = 4u64 * 4 * 4 * 2;
+        for nrows in 2..=tier.pick(2, 3) {
+            let st = par_range(&format!("T8: every sequence of {nrows} rows over {{0,1,X,C}}^3 x {{X,2}} (two clock columns), top level and inside loop(k,2)"), per_row.pow(nrows as u32) * 2, &deadline, |idx, st| {
+                let mut rest = idx / 2;
+                let mut rows = vec![];
+                for _ in 0..nrows {
+                    let d = digits(rest % per_row, &[4, 4, 4, 2]);
+                    rest /= per_row;
+                    rows.push(Stmt::Row(vec![one[d[0]].clone(), one[d[1]].clone(), one[d[2]].clone(), if d[3] == 0 { Entry::X } else { l(2) }]));
+                }
+                let body = if idx % 2 == 0 { rows } else { vec![Stmt::Loop("k".into(), lit(2), rows)] };
+                let prog = Program { header: h8.clone(), body };
+                st.witness("history_of_rows");
+                run_case_n(st, (7 << 40) + idx, "T8: history of rows", &prog, &s8, &[Step::Ans(vec![("Q".into(), V::Num(2))])], true, 40);
+            });
+            total.merge(st);
+        }
+    }
+
     // T7: whatever with_signals accepts from the C11 menu must run without panicking
     {
         let menu: Vec<Sig> = vec![Sig::inp("A", 4, 0), Sig::out("A", 4), Sig::bidir("A", 4, V::Num(2)), Sig::inp("B", 4, 1), Sig::out("Q", 4), Sig::inp("Q", 4, 0), Sig::bidir("Q", 4, V::Z), Sig::out("A_out", 4), Sig::out("V", 4), Sig::inp("A_out", 4, 0), Sig::inp("Q_out", 1, 1)];
@@ -316,15 +346,15 @@ pub fn run(tier: Tier, seed: u64) -> i32 {
     }
     total.sample(|| json!({"T1_example": "A O D D_out / ( p / q ) ( p / q ) ( p / q ) ( p / q ) with p = MIN, q = -1 on 63-bit signals", "oracle": "never panics (construction, next, vars, static iteration); error item exactly where the reference predicts division by zero, unassigned variable, empty random range, unimplemented function, Z/X read; rows otherwise"}));
     let mut required: Vec<&'static str> = POSITIONS.to_vec();
-    required.extend(["division_or_remainder_by_zero", "variable_never_assigned_on_the_executed_path", "read_of_Z_or_X", "empty_random_range", "function_not_implemented", "signal_width_63_or_64", "driver_error_at_a_call", "layout_omits_a_read_output", "driver_returns_Z_or_X", "bits_64", "static_iteration_exercised", "accepted_pair_iterated"]);
+    required.extend(["division_or_remainder_by_zero", "variable_never_assigned_on_the_executed_path", "read_of_Z_or_X", "empty_random_range", "function_not_implemented", "signal_width_63_or_64", "driver_error_at_a_call", "layout_omits_a_read_output", "driver_returns_Z_or_X", "bits_64", "static_iteration_exercised", "accepted_pair_iterated", "history_of_rows"]);
     let meta = CheckMeta {
         id: "C10",
         tier,
         seed,
-        rule: "T1-T5: one dangerous expression ({/ % + - * << >> unary-} over all pairs of 19 boundary operands, random with bounds -1..3, signExt, unassigned variables, runaway counters, bits(0)/bits(64)) placed in every expression position (row entry, bits argument, let, loop bound, repeat bound, while condition, declaration, ite branch) for signal widths {1,2,63,64}, under drivers that return Z/X, omit a read output, or fail at each call index; T6: every program up to K statements of the C01/C18 alphabet under 7 hostile constant answers; T7: every (program, signal list) pair of the C11 menu that with_signals accepts; each case is distinct by construction; non-trivial = the test was accepted and run".into(),
+        rule: "T1-T5: one dangerous expression ({/ % + - * << >> unary-} over all pairs of 19 boundary operands, random with bounds -1..3, signExt, unassigned variables, runaway counters, bits(0)/bits(64)) placed in every expression position (row entry, bits argument, let, loop bound, repeat bound, while condition, declaration, ite branch) for signal widths {1,2,63,64}, under drivers that return Z/X, omit a read output, or fail at each call index; T6: every program up to K statements of the C01/C18 alphabet under 7 hostile constant answers; T7: every (program, signal list) pair of the C11 menu that with_signals accepts; T8: every sequence of 2 (thorough 3) rows over {0,1,X,C}^3 x {X,2} with two clock columns; each case is distinct by construction; non-trivial = the test was accepted and run".into(),
         assumptions: vec![
             "oracle: no panic from from_str/with_signals/try_iter/next/vars/try_iter_static; item kinds (row / error item / driver error / end) as the reference interpreter predicts; values are C08's".into(),
-            "each run is observed for at most 8 next() calls (loops with huge bounds are lazy)".into(),
+            "each run is observed for at most 8 next() calls (loops with huge bounds are lazy); T8 runs to the end (at most 40)".into(),
         ],
         required_witnesses: required,
         exhaustive_note: "all listed combinations".into(),
